@@ -501,6 +501,105 @@ def tower_shard(args):
     return agg
 
 
+# ------------------------------------------------------------------------------------------------
+# call binding matrix: functions of 0-4 parameters with every mask of defaulted parameters, called with every number of
+# positional arguments and every subset of the remaining parameters bound by name (in both orders), plus the error
+# cases (too many, unknown name, bound twice, missing).  Defaults read earlier and later parameters.
+
+def call_matrix():
+    import itertools
+    num = genprog.num
+    out = []
+    for n in range(0, 5):
+        names = ["p%d" % i for i in range(n)]
+        for mask in range(1 << n):
+            params = []
+            for i, nm in enumerate(names):
+                if mask >> i & 1:
+                    # default: 100*(i+1) + the next parameter (a LATER one) or the previous one
+                    other = names[i + 1] if i + 1 < n and i % 2 == 0 else (names[i - 1] if i > 0 else None)
+                    d = num(100 * (i + 1)) if other is None else ("bin", "+", num(100 * (i + 1)), ("var", other))
+                    params.append(("param", nm, d))
+                else:
+                    params.append(("param", nm, None))
+            body = ("arr", [("var", nm) for nm in names])
+            for form in ("local_fn", "func_value", "method"):
+                for p in range(0, n + 2):
+                    rest = names[p:] if p <= n else []
+                    subsets = [c for k in range(len(rest) + 1) for c in itertools.combinations(rest, k)]
+                    if len(subsets) > 8 and form != "local_fn":
+                        subsets = subsets[::3]
+                    for sub in subsets:
+                        for order in ((sub, tuple(reversed(sub))) if len(sub) > 1 and form == "local_fn" else (sub,)):
+                            args = [("pos", num(i + 1)) for i in range(p)] + [("named", nm, num(10 * (names.index(nm) + 1))) for nm in order]
+                            if form == "local_fn":
+                                t = ("local", [("bind", "f", params, body)], ("call", ("var", "f"), args, False))
+                            elif form == "func_value":
+                                t = ("call", ("func", params, body), args, False)
+                            else:
+                                t = ("call", ("dot", ("obj", [("ffunc", ("id", "m"), params, 2, body)]), "m"), args, False)
+                            out.append(("n%d/mask%d/pos%d/named%d" % (n, mask, p, len(sub)), t))
+            # error cases: unknown name, a parameter bound twice
+            if n >= 1:
+                f = ("local", [("bind", "f", params, body)], None)
+                out.append(("unknown_name", ("local", f[1], ("call", ("var", "f"), [("named", "zz", num(1))], False))))
+                out.append(("bound_twice", ("local", f[1], ("call", ("var", "f"), [("pos", num(1)), ("named", names[0], num(2))], False))))
+    return out
+
+
+def scope_reference_matrix():
+    """Every scope kind with several binders where binder i's value mentions binder j, for all (i, j): locals, object locals
+    interleaved with fields, object-comprehension locals before/after the field, parameter defaults, comprehension variables.
+    Programs the scope rules reject are skipped here (C09 judges them); the others are compared with the model."""
+    num = genprog.num
+    out = []
+    for n in (2, 3):
+        for i in range(n):
+            for j in range(n):
+                names = ["b%d" % k for k in range(n)]
+
+                def val(k):
+                    if k == i and i != j:
+                        return ("bin", "+", ("var", names[j]), num(1))
+                    return num(10 * (k + 1))
+                binds = [("bind", names[k], None, val(k)) for k in range(n)]
+                res = ("arr", [("var", nm) for nm in names])
+                tag = "n%d/%d_reads_%d" % (n, i, j)
+                out.append(("local/" + tag, ("local", binds, res)))
+                for split in range(n + 1):
+                    members = [("mlocal", b) for b in binds[:split]] + [("field", ("id", "r"), False, 1, res)] + [("mlocal", b) for b in binds[split:]]
+                    out.append(("objlocals/%s/split%d" % (tag, split), ("dot", ("obj", members), "r")))
+                    oc = ("objcomp", binds[:split], ("var", "cv"), False, res, binds[split:], [("sfor", "cv", ("arr", [genprog.s("x"), genprog.s("y")]))])
+                    out.append(("objcomp_locals/%s/split%d" % (tag, split), oc))
+                params = [("param", names[k], val(k)) for k in range(n)]
+                out.append(("param_defaults/" + tag, ("call", ("func", params, res), [], False)))
+                out.append(("param_defaults_named/" + tag, ("call", ("func", params, res), [("named", names[(i + 1) % n], num(7))], False)))
+                specs = [("sfor", names[k], ("arr", [val(k), num(k)])) for k in range(n)]
+                out.append(("comp_vars/" + tag, ("arrcomp", res, specs)))
+                out.append(("objcomp_var_vs_local/" + tag,
+                            ("objcomp", [("bind", names[0], None, ("bin", "+", ("var", "cv"), genprog.s("!")))], ("var", "cv"), False, ("var", names[0]), [],
+                             [("sfor", "cv", ("arr", [genprog.s("x"), genprog.s("y")]))])))
+    return out
+
+
+def matrix_shard(args):
+    which, i, k = args
+    from checks import c09
+    agg = Agg()
+    ev = Ev(agg)
+    try:
+        cases = (call_matrix() if which == "call" else scope_reference_matrix())[i::k]
+        for name, tree in cases:
+            if which == "scope" and c09.scope_faults(tree):
+                agg.count("scope_matrix_statically_rejected")
+                continue
+            m = compare_with_model(agg, ev, tree, which + "_matrix", modes=("min",))
+            agg.add(which + "_matrix_cells", (name.split("/")[0] if which == "scope" else name, m[0] if m[0] != "E" else m[1]))
+    finally:
+        ev.close()
+    return agg
+
+
 def templates_shard(args):
     seed, _ = args
     agg = Agg()
@@ -545,6 +644,8 @@ def run(tier, seed):
     nw = 3_200 if quick else 100_000
     for a in common.pmap(tower_shard, [(seed * 1949 + i, nw // 16) for i in range(16)]):
         total.merge(a)
+    for a in common.pmap(matrix_shard, [("call", i, 16) for i in range(16)] + [("scope", i, 4) for i in range(4)]):
+        total.merge(a)
     for a in common.pmap(templates_shard, [(seed, 0)]):
         total.merge(a)
     rule = ("typed random programs over the core grammar (numbers, booleans, strings, arrays, objects with inheritance, "
@@ -558,7 +659,11 @@ def run(tier, seed):
             "call, comprehension, assert, error, field name, +:, in super with every combination of 12 operand values of all "
             "types; both short-circuit states) and typed programs with one sub-expression replaced by a value of another type; "
             "nesting towers (objects nested 1-5 deep through 10 carriers, the innermost reading $ / self in 8 reader positions, "
-            "the outermost optionally extended). distinct_nontrivial = distinct generated programs on which both printings agreed with the "
+            "the outermost optionally extended); call-binding matrix (functions of 0-4 parameters x every mask of defaulted parameters - "
+            "defaults reading earlier and later parameters - x every positional count x every subset of the rest bound by name in both "
+            "orders, as local function / function value / method, plus unknown-name and bound-twice errors); scope-reference matrix "
+            "(binder i's value mentions binder j for all i, j in locals, object locals around the fields, object-comprehension locals "
+            "before/after the field, parameter defaults, comprehension variables). distinct_nontrivial = distinct generated programs on which both printings agreed with the "
             "model + templates.")
     return common.finish(PROP, tier, seed, total, rule, t0, level="exploration",
                          assumptions=["driver/refinterp.py encodes the specification (trusted base); programs whose number "
